@@ -89,9 +89,14 @@ def run(ctx, repo, tier):
             for no in box_o:
                 for nt in box_t:
                     specs.append((cart, nb, no, nt, str(nb), str(no)))
+                    if nt == 1 and nb <= 2 and no in (1, 4):
+                        # a one-shell grid may also be written as a bare number ("0.1") instead of a list
+                        specs.append((cart, nb, no, nt, str(nb), str(no), "0.1"))
                     if nb == 1 or no == 1:
                         specs.append((cart, nb, no, nt, "zero" if nb == 1 else str(nb), "zero" if no == 1 else str(no)))
-    for cart, nb, no, nt, bname, oname in specs:
+    for spec_ in specs:
+        cart, nb, no, nt, bname, oname = spec_[:6]
+        radii_override = spec_[6] if len(spec_) > 6 else None
         if True:
             if True:
                 if True:
@@ -99,7 +104,7 @@ def run(ctx, repo, tier):
                     n_total = nb * no * nt
                     hooks = FGHooks(repo, nb, no, nt)
                     interp = Interp(repo, hooks, max_depth=20)
-                    radii = "[" + ", ".join(str(round(0.1 * (k + 1), 1)) for k in range(nt)) + "]"
+                    radii = radii_override or ("[" + ", ".join(str(round(0.1 * (k + 1), 1)) for k in range(nt)) + "]")
                     fg = build_fullgrid(repo, interp, Const(bname), Const(oname), Const(radii), cartesian=cart)
                     results = {}
                     for g in GETTERS:
@@ -159,6 +164,43 @@ def run(ctx, repo, tier):
                             seen.setdefault(key, []).append((nb, no, nt, cart, (f"{d0[0].pretty()} x {d0[1].pretty()} for n_total={n_total}",), bname, oname))
                         else:
                             shape_ok += 1
+    # sibling returns of the position-matrix routine: its callers read .row / .col / .data (coo attributes), every return therefore
+    # converts to coo; the result of sparse ARITHMETIC has the format scipy picks for the operand shapes (csr for some), not coo
+    import ast as _ast
+    from ..model import src as _src
+    pgc = repo.cls(FG, "PositionGrid")
+    pna = pgc.methods.get("_get_N_N_position_array")
+    if pna is not None:
+        rets = [r for r in _ast.walk(pna.node) if isinstance(r, _ast.Return) and r.value is not None]
+        ctx.instance("SIG", len(rets))
+        from ..astutil import Canon as _Canon
+        cn_ = _Canon(_Canon.single_defs(pna.node.body))
+        bad_r, unk_r = [], []
+        for r in rets:
+            v = r.value
+            txt = _src(v)
+            if (isinstance(v, _ast.Call) and isinstance(v.func, _ast.Attribute) and v.func.attr == "tocoo") or \
+                    (isinstance(v, _ast.Call) and _src(v.func).split(".")[-1] in ("coo_array", "coo_matrix")) or "format='coo'" in txt.replace('"', "'"):
+                continue
+            ve = cn_.expand(v)
+            if isinstance(ve, _ast.BinOp) and any(isinstance(c_, _ast.Call) and _src(c_.func).split(".")[-1] in ("coo_array", "coo_matrix", "csr_array", "diags", "bmat")
+                                                   for c_ in _ast.walk(ve)):
+                bad_r.append(r)
+            else:
+                unk_r.append(r)
+        if bad_r:
+            ctx.violate("SIG", "C19.position_array.format", "a return of PositionGrid._get_N_N_position_array hands back the result of sparse arithmetic "
+                        "without converting it to coo (every other return does): scipy returns csr for some operand shapes, and the Cartesian "
+                        "border / distance helpers then fail with AttributeError on `.row` / `.col`", pna.where, _src(bad_r[0])[:140],
+                        witness="coo_array(M) * np.ones(1) is a csr_array")
+        elif unk_r:
+            ctx.inconclusive("SIG", "C19.position_array.format", "format of a returned position matrix not recognised", pna.where, witness=_src(unk_r[0])[:120])
+        else:
+            ctx.ok("SIG", "C19.position_array.format", f"all {len(rets)} returns of the position-matrix routine convert to coo", pna.where)
+    # the contexts above use a SUMMARY of TranslationParser (a 1-D array with one entry per radius); that summary is discharged here
+    # with the per-format interpretation of the parser (shared with C16 / C09)
+    from .C16 import radii_conversion
+    radii_conversion(ctx, repo, "C19")
     ctx.extra["contexts"] = contexts
     ctx.extra["shape_results_checked"] = shape_ok
     ctx.extra["shape_results_not_derived"] = shape_unknown
